@@ -15,8 +15,8 @@ type zzListener struct {
 }
 
 func (l *zzListener) Accept() (net.Conn, error) { return nil, net.ErrClosed }
-func (l *zzListener) Close() error               { l.closes++; return nil }
-func (l *zzListener) Addr() net.Addr             { return nil }
+func (l *zzListener) Close() error              { l.closes++; return nil }
+func (l *zzListener) Addr() net.Addr            { return nil }
 
 // zzDrainCtx is the caller's context: it expires after `polls` looks at Done(), and at each look
 // notes whether the listener was still open.
@@ -29,7 +29,7 @@ type zzDrainCtx struct {
 	onLook     func(n int)
 }
 
-func (c *zzDrainCtx) Deadline() (time.Time, bool) { return time.Time{}, false }
+func (c *zzDrainCtx) Deadline() (time.Time, bool)       { return time.Time{}, false }
 func (c *zzDrainCtx) Value(key interface{}) interface{} { return nil }
 func (c *zzDrainCtx) Err() error {
 	if c.looked > c.polls {
@@ -76,10 +76,18 @@ func ZZ_C18_TR() {
 	zz.Assert("listener-closed-before-the-wait-for-active-connections", !ctx.openAtLook)
 	if active == 0 {
 		zz.Assert("idle-server-shuts-down-cleanly", err == nil)
-	} else if finish && ctx.polls >= 2 {
-		zz.Cover("connections-finished-in-time", true)
-		zz.Assert("returns-once-no-connection-is-active", err == nil && ctx.looked == 2)
+	} else if finish && ctx.looked >= 2 {
+		// the connections finished during the wait
+		zz.Cover("connections-finished-in-time", ctx.polls >= 2)
+		if ctx.polls >= 2 {
+			zz.Assert("returns-once-no-connection-is-active", err == nil && ctx.looked == 2)
+		} else {
+			// they finished at the very look at which the caller's wait ended: either answer is right
+			zz.Assert("drained-or-deadline", err == nil || err == context.DeadlineExceeded)
+		}
 	} else {
-		zz.Assert("busy-server-waits-until-the-callers-deadline", err == context.DeadlineExceeded && ctx.looked == ctx.polls+1)
+		// (natively a tick and the expiry can be ready at the same moment and select may take the
+		// tick first, which costs one more look: at least polls+1 looks, exactly that many here)
+		zz.Assert("busy-server-waits-until-the-callers-deadline", err == context.DeadlineExceeded && ctx.looked >= ctx.polls+1)
 	}
 }
